@@ -34,7 +34,8 @@ EXPLANATION = (
     "every writer group that receives append_data in the package reaches "
     "finalize on all normal paths; the CSV writer validates, appends "
     "without header and initialises with the header; the Parquet writer "
-    "writes with its schema and closes. NOT decided: value round-trip "
+    "writes with its schema and closes. Also: Parquet read() and chunk iterator agree on the Arrow->pandas conversion; text writer and text reader agree on cell-format options; every write() override starts from an empty file; the computed column is attached by position, not by index label; columns are selected iff a list was given (truth table over the method specialised to None / not None). "
+    "NOT decided: value round-trip "
     "through CSV text.")
 TECHNIQUE = ("sibling agreement over an interface + optional-parameter "
              "contradiction (NULL) + slice-partition (STRIDE) + who-may-call "
